@@ -90,6 +90,8 @@ class Interp:
         self.pos = 0
         self.new_alternatives = []  # decision prefixes to explore later
         self.pc = []  # path condition (list of z3 Bool)
+        self.pc_index = {}  # sexpr of decided condition -> bool
+        self.constrained_bools = set()  # propositional variables mentioned by some assumed fact
         self.facts = []  # assumptions: type facts, requires, stub axioms, callee posts
         self.fact_notes = []
         self.counter = 0
@@ -143,6 +145,19 @@ class Interp:
         if z3.is_true(fact):
             return
         self.facts.append(fact)
+        self._note_bools(fact)
+
+    def _note_bools(self, e, depth=0):
+        if depth > 60:
+            return
+        if z3.is_const(e):
+            if z3.is_bool(e) and e.decl().kind() == z3.Z3_OP_UNINTERPRETED:
+                self.constrained_bools.add(e.sexpr())
+            return
+        if z3.is_app(e) and z3.is_bool(e):
+            for ch in e.children():
+                if z3.is_bool(ch):
+                    self._note_bools(ch, depth + 1)
 
     # ------------------------------------------------------------------ solver
     def _solver(self, timeout_ms=None):
@@ -191,13 +206,22 @@ class Interp:
             return True
         if z3.is_false(cond):
             return False
+        # a condition (or its negation) that is literally part of the path condition is already decided
+        key = cond.sexpr()
+        if key in self.pc_index:
+            return self.pc_index[key]
         if self.pos < len(self.decisions):
             d = self.decisions[self.pos]
             self.pos += 1
-            self.pc.append(cond if d else z3.Not(cond))
+            self._push_pc(cond, d)
             return d
-        can_t = self.feasible(cond)
-        can_f = self.feasible(z3.Not(cond))
+        atom = cond.arg(0) if z3.is_not(cond) else cond
+        if z3.is_const(atom) and atom.decl().kind() == z3.Z3_OP_UNINTERPRETED and atom.sexpr() not in self.constrained_bools:
+            # a fresh propositional variable nothing else talks about: both sides are feasible, no solver call needed
+            can_t = can_f = True
+        else:
+            can_t = self.feasible(cond)
+            can_f = self.feasible(z3.Not(cond))
         if can_t and can_f:
             self.new_alternatives.append(self.decisions[: self.pos] + [False])
             d = True
@@ -209,8 +233,14 @@ class Interp:
             raise Infeasible()
         self.decisions.append(d)
         self.pos += 1
-        self.pc.append(cond if d else z3.Not(cond))
+        self._push_pc(cond, d)
         return d
+
+    def _push_pc(self, cond, d):
+        self.pc.append(cond if d else z3.Not(cond))
+        self.pc_index[cond.sexpr()] = d
+        neg = z3.simplify(z3.Not(cond))
+        self.pc_index[neg.sexpr()] = not d
 
     def choose(self, n, hint="choice") -> int:
         """Nondeterministic choice among n alternatives (each becomes its own path)."""
